@@ -508,7 +508,11 @@ def fix_objective_as_constraint(
     """
     fix_objective_name = name.format(model.objective.name)
     if fix_objective_name in model.constraints:
-        model.solver.remove(fix_objective_name)
+        # context-aware: a constraint that was there before a `with model:` block
+        # is back after it
+        remove_cons_vars_from_problem(
+            model, [model.constraints[fix_objective_name]]
+        )
     if bound is None:
         bound = model.slim_optimize(error_value=None) * fraction
     if model.objective.direction == "max":
